@@ -307,5 +307,177 @@ theorem addTime_keeps_distance {fs : List (Feat α)} {i : Nat} {fu : DistanceUni
   subst hst
   exact List.getElem?_set_ne (Ne.symm (slots_ne hk hkt))
 
+/-! ### One access step -/
+
+/-- the access models touch no slot other than "time" -/
+theorem access_other {m : AccessModel α} {fs : List (Feat α)} {pe ne : Nat} {st st1 : List α}
+    (h : m.access fs pe ne st = some st1) :
+    ∀ j, featIndex fs "time" ≠ some j → st1[j]? = st[j]? := by
+  cases m with
+  | noAccess =>
+    simp only [AccessModel.access, Option.some.injEq] at h
+    subst h
+    intros; rfl
+  | turnDelay dtu headings delays =>
+    simp only [AccessModel.access] at h
+    split at h
+    · cases h
+    · exact addTime_other h
+
+/-- the access models never touch the distance slot -/
+theorem access_keeps_distance {m : AccessModel α} {fs : List (Feat α)} {i : Nat} {fu : DistanceUnit}
+    (hs : DistSlot fs i fu) {pe ne : Nat} {st st1 : List α}
+    (h : m.access fs pe ne st = some st1) : st1[i]? = st[i]? := by
+  cases m with
+  | noAccess =>
+    simp only [AccessModel.access, Option.some.injEq] at h
+    subst h
+    rfl
+  | turnDelay dtu headings delays =>
+    simp only [AccessModel.access] at h
+    split at h
+    · cases h
+    · exact addTime_keeps_distance hs.kind h
+
+/-- the access model adds exactly the delay of the turn, converted from the delay table's unit to the
+feature's unit, to the time slot -/
+theorem access_time_slot {m : AccessModel α} {fs : List (Feat α)} {t : Nat} {ftu : TimeUnit}
+    (hs : TimeSlot fs t ftu) {pe ne : Nat} {st st1 : List α}
+    (h : m.access fs pe ne st = some st1) :
+    ∀ x, st[t]? = some x → st1[t]? = some (x + delayTerm m ftu pe ne) := by
+  intro x hx
+  cases m with
+  | noAccess =>
+    simp only [AccessModel.access, Option.some.injEq] at h
+    subst h
+    simp [delayTerm, hx]
+  | turnDelay dtu headings delays =>
+    simp only [AccessModel.access] at h
+    split at h
+    · cases h
+    · rename_i d hd
+      simp only [delayTerm, hd]
+      exact (addTime_slot hs h).1 x hx
+
+/-- a successful turn-delay access found a delay for the turn -/
+theorem access_delay_defined {fs : List (Feat α)} {dtu : TimeUnit} {headings : List (Int × Option Int)}
+    {delays : List (Option α)} {pe ne : Nat} {st st1 : List α}
+    (h : (AccessModel.turnDelay dtu headings delays).access fs pe ne st = some st1) :
+    ∃ d, turnDelayOf headings delays pe ne = some d := by
+  simp only [AccessModel.access] at h
+  split at h
+  · cases h
+  · rename_i d hd
+    exact ⟨d, hd⟩
+
+/-! ### One traversal step -/
+
+theorem traverse_edge_defined {m : TravModel α} {fs : List (Feat α)} {edges : List (EdgeRec α)}
+    {e : Nat} {st st' : List α} (h : m.traverse fs edges e st = some st') :
+    ∃ er, edges[e]? = some er := by
+  unfold TravModel.traverse at h
+  split at h
+  · cases h
+  · rename_i er her
+    exact ⟨er, her⟩
+
+/-- the traversal models touch no slot other than "distance" and "time" -/
+theorem traverse_other {m : TravModel α} {fs : List (Feat α)} {edges : List (EdgeRec α)}
+    {e : Nat} {st st' : List α} (h : m.traverse fs edges e st = some st') :
+    ∀ j, featIndex fs "distance" ≠ some j → featIndex fs "time" ≠ some j → st'[j]? = st[j]? := by
+  intro j hjd hjt
+  unfold TravModel.traverse at h
+  split at h
+  · cases h
+  · cases m with
+    | distance du => exact addDistance_other h j hjd
+    | speed su du tu ms table =>
+      simp only at h
+      split at h
+      · cases h
+      · split at h
+        · cases h
+        · split at h
+          · cases h
+          · rename_i st1 h1
+            rw [addDistance_other h j hjd, addTime_other h1 j hjt]
+
+/-- one traversal adds the edge's length, in the feature's unit, to the distance slot -/
+theorem traverse_dist_slot {m : TravModel α} {fs : List (Feat α)} {i : Nat} {fu : DistanceUnit}
+    (hs : DistSlot fs i fu) {edges : List (EdgeRec α)} {e : Nat} {st st' : List α}
+    (h : m.traverse fs edges e st = some st') :
+    ∀ x, st[i]? = some x → st'[i]? = some (x + distTerm m edges fu e) := by
+  intro x hx
+  unfold TravModel.traverse at h
+  split at h
+  · cases h
+  · rename_i er her
+    cases m with
+    | distance du =>
+      simp only [distTerm, her, travDu]
+      exact (addDistance_slot hs h).1 x hx
+    | speed su du tu ms table =>
+      simp only at h
+      split at h
+      · cases h
+      · split at h
+        · cases h
+        · split at h
+          · cases h
+          · rename_i st1 h1
+            simp only [distTerm, her, travDu]
+            apply (addDistance_slot hs h).1 x
+            rw [addTime_keeps_distance hs.kind h1]
+            exact hx
+
+/-- one traversal adds the edge's traversal time (speed model; nothing for the distance model), in
+the feature's unit, to the time slot -/
+theorem traverse_time_slot {m : TravModel α} {fs : List (Feat α)} {t : Nat} {ftu : TimeUnit}
+    (hs : TimeSlot fs t ftu) {edges : List (EdgeRec α)} {e : Nat} {st st' : List α}
+    (h : m.traverse fs edges e st = some st') :
+    ∀ x, st[t]? = some x → st'[t]? = some (x + timeTerm m edges ftu e) := by
+  intro x hx
+  unfold TravModel.traverse at h
+  split at h
+  · cases h
+  · rename_i er her
+    cases m with
+    | distance du =>
+      simp only [timeTerm, add_zero]
+      rw [addDistance_keeps_time hs.kind h]
+      exact hx
+    | speed su du tu ms table =>
+      simp only at h
+      split at h
+      · cases h
+      · rename_i sp hsp
+        split at h
+        · cases h
+        · rename_i tv htv
+          split at h
+          · cases h
+          · rename_i st1 h1
+            simp only [timeTerm, speedTime?, her, hsp, htv]
+            rw [addDistance_keeps_time hs.kind h]
+            exact (addTime_slot hs h1).1 x hx
+
+/-- a successful speed-model traversal obtained a time from `create_time` -/
+theorem traverse_time_defined {fs : List (Feat α)} {edges : List (EdgeRec α)} {su : SpeedUnit}
+    {du : DistanceUnit} {tu : TimeUnit} {ms : α} {table : List α} {e : Nat} {st st' : List α}
+    (h : (TravModel.speed su du tu ms table).traverse fs edges e st = some st') :
+    ∃ tv, speedTime? edges su du tu table e = some tv := by
+  unfold TravModel.traverse at h
+  split at h
+  · cases h
+  · rename_i er her
+    simp only at h
+    split at h
+    · cases h
+    · rename_i sp hsp
+      split at h
+      · cases h
+      · rename_i tv htv
+        exact ⟨tv, by simp only [speedTime?, her, hsp, htv]⟩
+
 end RouteSums
 end Compass
